@@ -55,7 +55,8 @@ BOUNDS = {
              "d=3 scales {0,1,1.1}tol: 1-2 clusters N<=4, 3 clusters N<=3; tol 1e-6: d=2 N<=3 scales {0,1,1.1}tol; "
              "uniq_int: {0,1,2}^1 N<=6, {0,1,2}^2 N<=4, {0,1}^3 N<=4; "
              "ismember: d=1 <=3 cols, d=2 a<=2 b<=3 cols over {0,1,2}^2, d=3 a<=1 b<=2 over {0,1,2}^3; "
-             "intersect: d=1,2 a<=2 b<=2 cols",
+             "intersect: d=1,2 a<=2 b<=2 cols; both tiers: far/scaled cluster frames (origins 1e3,1e5,1e6 on axis and diagonal, x1e3, x1e-3) "
+             "and ismember_columns with 6 mixed dtype pairs (int/float with fractional entries, int32/int64), d=1 <=3 cols, d=2 a 1 col b <=2 cols",
     "thorough": "uniq: d=1 N<=6, d=2 N<=5 scales {0,.9,1,1.1,2}tol, d=3 N<=4 same scales, tol 1e-3; d=2 N<=4 and d=1 N<=5 at tol 1e-6; "
                 "uniq_int: {0,1,2}^1 N<=8, {0,1,2}^2 N<=5, {0,1}^3 N<=5; ismember: d=1 <=4 cols, d=2 a,b<=3 cols, "
                 "d=3 a,b<=2 cols; intersect: d=1,2 a<=3 b<=2 cols, d=3 ({0,1}^3) a<=2 b<=2",
@@ -155,6 +156,10 @@ def cases(tier):
         block = max(1, 30000 // (2 * n_b))
         for lo in range(0, n_a, block):
             out.append({"kind": "ismember", "d": d, "m": m, "na": na, "nb": nb, "lo": lo, "hi": min(n_a, lo + block)})
+    # mixed dtypes: membership is decided on the ORIGINAL values (1 == 1.0, 1 != 1.5)
+    for d in (1, 2):
+        for combo in range(len(MIXED)):
+            out.append({"kind": "ismember_mixed", "d": d, "combo": combo, "ncol": 3 if d == 1 else 2, "ncol_a": 3 if d == 1 else 1})
     ins = {"quick": [(1, 2, 2, 2), (2, 2, 2, 2)], "thorough": [(1, 2, 3, 2), (2, 2, 3, 2), (3, 1, 2, 2)]}[tier]
     for d, m, na, nb in ins:
         nl = (m + 1) ** d
@@ -482,6 +487,67 @@ def _run_ismember(case, out: Outcome):
         out.samples.append({"a": [list(lat[i]) for i in a_seqs[0]], "b_first": [list(lat[i]) for i in b_seqs[0]], "d": d})
 
 
+# (dtype of a, values of a, dtype of b, values of b)
+MIXED = [
+    ("int64", [0, 1, 2], "float64", [0.0, 1.0, 1.5, 1.25, 2.0]),
+    ("float64", [0.0, 1.0, 1.5, 2.0], "int64", [0, 1, 2]),
+    ("float64", [0.0, 1.0, 1.5], "float64", [0.0, 1.0, 1.25, 1.5]),
+    ("int32", [0, 1, 2], "int64", [0, 1, 2, 3]),
+    ("int64", [0, 1, 2], "int32", [0, 1, 2, 3]),
+    ("int32", [0, 1, 2], "float64", [0.0, 1.0, 1.5, 2.0]),
+]
+
+
+def _run_ismember_mixed(case, out: Outcome):
+    from porepy.utils.array_operations import ismember_columns
+
+    d, ncol = case["d"], case["ncol"]
+    dta, va, dtb, vb = MIXED[case["combo"]]
+    la = list(itertools.product(va, repeat=d))
+    lb = list(itertools.product(vb, repeat=d))
+    if d == 2:  # keep the b alphabet small: drop letters with two fractional entries
+        lb = [c for c in lb if sum(1 for x in c if x != int(x)) <= 1]
+    a_seqs, b_seqs = _seqs(len(la), case["ncol_a"]), _seqs(len(lb), ncol)
+    keyf = {True: lambda c: tuple(sorted(c)), False: lambda c: tuple(c)}
+    tag = f"{dta}/{dtb}"
+    for sa in a_seqs:
+        a = np.array([la[i] for i in sa], dtype=dta).T.copy()
+        for sb in b_seqs:
+            b = np.array([lb[i] for i in sb], dtype=dtb).T.copy()
+            for sort in (True, False):
+                kf = keyf[sort]
+                ka = [kf(la[i]) for i in sa]
+                kb = [kf(lb[i]) for i in sb]
+                exp_mem = [x in kb for x in ka]
+                nm = sum(exp_mem)
+                # a fractional column of b whose truncation / rounding is a column of a
+                lure = any(any(x != int(x) for x in lb[j]) and kf(tuple(int(x) for x in lb[j])) in ka for j in sb)
+                key = (d, tag, sort, sa, sb) if (lure or 0 < nm < len(sa)) else None
+                a0, b0 = a.copy(), b.copy()
+                try:
+                    mem, ia = ismember_columns(a, b, sort=sort)
+                    mem, ia = np.asarray(mem), np.asarray(ia)
+                except Exception as e:
+                    out.violate("ismember_columns raised (mixed dtypes)", error=repr(e), a=a, b=b, dtypes=tag, sort=sort)
+                    out.ev("ismember-mixed/exception", key)
+                    continue
+                bad = None
+                if not (np.array_equal(a, a0) and np.array_equal(b, b0) and a.dtype == a0.dtype and b.dtype == b0.dtype):
+                    bad = "an input array was modified"
+                elif mem.shape != (len(sa),) or mem.tolist() != exp_mem:
+                    bad = "membership mask differs from brute force on the original values"
+                elif ia.shape != (nm,) or any(not (0 <= int(j) < len(sb)) for j in ia):
+                    bad = "index array has wrong length / range"
+                elif any(kb[int(j)] != x for j, x in zip(ia, [x for x, t in zip(ka, exp_mem) if t])):
+                    bad = "b[:, ia] is not the member columns of a"
+                if bad:
+                    out.violate("ismember_columns (mixed dtypes): " + bad, a=a, b=b, dtypes=tag, sort=sort, got_mask=mem, got_ia=ia,
+                                expected_mask=exp_mem)
+                    out.ev("ismember-mixed/VIOLATION", key)
+                else:
+                    out.ev(f"ismember-mixed/{tag}/" + ("lure" if lure else "plain") + ("/none" if nm == 0 else "/some"), key)
+
+
 TOLS_INTERSECT = [1e-10, 1e-3, 0.25]
 PERT = [0.0, 0.5, 2.0]  # perturbation of b-letters along e_0, units of tol
 
@@ -580,6 +646,8 @@ def run_case(case) -> Outcome:
         _run_uniq(case, out)
     elif kind == "uniq_int":
         _run_uniq_int(case, out)
+    elif kind == "ismember_mixed":
+        _run_ismember_mixed(case, out)
     elif kind == "ismember":
         _run_ismember(case, out)
     elif kind == "intersect":
